@@ -79,7 +79,7 @@ impl Engine for ReplicaSim {
                     }
                     break l;
                 };
-                KeySlotSpec { spec: KeySpec::draw(&mut r, alg), custody: Custody::Native(loader) }
+                KeySlotSpec { spec: KeySpec::draw_common(&mut r, alg), custody: Custody::Native(loader) }
             })
             .collect();
         let n_ops = r.range(3, if tier == Tier::Thorough { 9 } else { 6 }) as usize;
@@ -119,7 +119,8 @@ impl Engine for ReplicaSim {
                     return o;
                 };
                 let key = &w.keys[a.signer];
-                let alg = key.sim.alg;
+                // the algorithm the artefact declares, among those this key may legitimately sign with
+                let alg = key.allowed_algs().into_iter().find(|x| x.sig_alg_id() == s.alg.raw).unwrap_or(key.sim.alg);
                 match openssl_verify(alg, &key.sim.spki, s.tbs.raw, s.sig) {
                     Ok(true) => o.count("openssl_verified", 1),
                     _ => {
